@@ -33,7 +33,8 @@ func CheckDecode(s string) (b []byte, err error) {
 // CheckEncode encodes the given byte slice into a base58 string with a hash-based
 // checksum appended to it.
 func CheckEncode(b []byte) string {
-	b = append(b, hash.Checksum(b)...)
+	// The argument can have spare capacity the caller still uses.
+	b = append(b[:len(b):len(b)], hash.Checksum(b)...)
 
 	return base58.Encode(b)
 }
